@@ -6,7 +6,7 @@ import torch
 from . import models, wq
 
 EVIDENCE = dict(
-    bounds="no-write monitor (all values, all executed paths): every in-place ATen op is checked against the protected storages (parameters, buffers/scales, caller-owned inputs) during model(x) outside calibration (unfrozen, frozen, calibrated), quantize(), freeze(), state_dict(), quantize_weight() over 5 shapes x axis x every divisor group size x six qtypes, quantize_activation(); determinism by term identity of two successive evaluations with symbolic parameters and inputs; scoping under faults: exception raised in the forward of the k-th module for every k (solver-enumerated, models of <= 5 modules), exception kinds Exception and BaseException (KeyboardInterrupt), nesting depth <= 2, sequential contexts, normal exit",
+    bounds="no-write monitor (all values, all executed paths): every in-place ATen op is checked against the protected storages (parameters, buffers/scales, caller-owned inputs) during model(x) outside calibration (unfrozen, frozen, calibrated), quantize(), freeze(), state_dict(), quantize_weight() over 5 shapes x axis x every divisor group size x six qtypes, quantize_activation(); determinism by term identity of two successive evaluations with symbolic parameters and inputs; scoping under faults: exception raised in the forward of the k-th module for every k (solver-enumerated, models of <= 5 modules), exception kinds Exception and BaseException (KeyboardInterrupt), nesting depth <= 2 (distinct context objects and the same object re-entered), sequential contexts (distinct objects and one object reused), normal exit",
     outside="multi-threaded use; asynchronous exceptions; the fault clause's state is concrete (hook tables, mode stack): it is bounded enumeration steered by the solver, not a symbolic claim",
     assumptions=["a write that does not go through an ATen in-place/out op (e.g. raw data_ptr access in a compiled extension) is not observed", "Python-level state (qtypes, extension switch, registries) is snapshotted and compared concretely"],
 )
@@ -92,6 +92,17 @@ def fault_scenario(model_kind, k, exc_kind, nesting, act="qint8"):
             with Calibration():
                 with Calibration(momentum=0.5):
                     model(x)
+        elif nesting == "reentrant":  # the same context object entered twice, nested
+            cal = Calibration()
+            with cal:
+                with cal:
+                    model(x)
+        elif nesting == "reuse":  # the same context object used for two successive blocks
+            cal = Calibration()
+            with cal:
+                pass
+            with cal:
+                model(x)
         else:  # sequential
             with Calibration():
                 pass
@@ -347,7 +358,7 @@ def run_case(case, res):
             s.add(k != v)
         res.query("fault-positions-enumerated", "LIA", "unsat", 0.0, sub=f"{len(ks)} positions, domain closed", symbolic=False)
         for kk in [None] + sorted(ks):
-            for nesting in (1, 2, "seq"):
+            for nesting in (1, 2, "seq", "reentrant", "reuse"):
                 probs, _ = fault_scenario(case["model"], kk, case["exc"], nesting)
                 res.side_ok("calibration-scope-restored", not probs, f"{case['model']} fault at module {kk} ({case['exc']}) nesting={nesting}: {probs[:1]}")
                 if probs:
